@@ -9,7 +9,7 @@ Init == a = 0 /\ part \in 0..15
 Next == part' = part /\ a = 0 /\ part < 16 /\ a' \in {x \in (0 - R)..R : x % 16 = part /\ x # 0}
 Lim(S) == IF S = "i8" THEN 127 ELSE 255
 NativeSum(S, x, y) == IF x < 0 \/ y < 0 \/ x + y > Lim(S) THEN Nothing ELSE Some(FromNat(x + y))
-BSet == ((0 - 20)..20) \cup (100..135) \cup (240..270) \cup {0 - R, R}
+BSet == ((0 - 3)..3) \cup (120..135) \cup (250..260) \cup {0 - R, 0 - 128, 0 - 129, R}
 Agrees == \A b \in BSet :
             /\ Less(FromInt(a), FromInt(b)) = (a < b)
             /\ \A S \in {"i8", "u8"} :
@@ -17,11 +17,16 @@ Agrees == \A b \in BSet :
                  /\ Sum(S, <<FromInt(b), FromInt(a)>>) = NativeSum(S, a, b)
                  /\ SumOrMax(S, <<FromInt(a), FromInt(b)>>) = (IF NativeSum(S, a, b).h THEN FromNat(a + b) ELSE FromNat(Lim(S)))
                  /\ Sum(S, <<Zero, FromInt(a), FromInt(b)>>) = NativeSum(S, a, b)
+            /\ \A S \in {"i8", "u8", "i16"} :
+                 /\ (IF SmallSum(S, <<a, b>>) < 0 THEN Nothing ELSE Some(FromNat(SmallSum(S, <<a, b>>)))) = Sum(S, <<FromInt(a), FromInt(b)>>)
+                 /\ FromNat(SmallSumOrMax(S, <<a, b>>)) = SumOrMax(S, <<FromInt(a), FromInt(b)>>)
+                 /\ (IF SmallSum(S, <<a, b, 3>>) < 0 THEN Nothing ELSE Some(FromNat(SmallSum(S, <<a, b, 3>>)))) = Sum(S, <<FromInt(a), FromInt(b), FromInt(3)>>)
+            /\ SmallIn("i8", a) = InType("i8", FromInt(a)) /\ SmallIn("u8", a) = InType("u8", FromInt(a))
             /\ (b \in 0..40 /\ a \in 0..120 => Sum("i8", <<FromInt(a), FromInt(b), FromInt(7)>>) = NativeSum("i8", a + b, 7))
-RECURSIVE Pow2W(_)
-Pow2W(n) == IF n = 0 THEN <<1>> ELSE MulAdd(Pow2W(n - 1), 2, 0)
-Bits(T) == CASE T \in {"i8", "u8"} -> 8 [] T \in {"i16", "u16"} -> 16 [] T \in {"i32", "u32"} -> 32 [] OTHER -> 64
-ASSUME \A T \in Types : Add(MaxOf(T), <<1>>) = Pow2W(IF Signed(T) THEN Bits(T) - 1 ELSE Bits(T))
+RECURSIVE Pow256(_)
+Pow256(n) == IF n = 0 THEN <<1>> ELSE MulAdd(Pow256(n - 1), 256, 0)
+Bytes(T) == CASE T \in {"i8", "u8"} -> 1 [] T \in {"i16", "u16"} -> 2 [] T \in {"i32", "u32"} -> 4 [] OTHER -> 8
+ASSUME \A T \in Types : Add(MaxOf(T), <<1>>) = (IF Signed(T) THEN MulAdd(Pow256(Bytes(T) - 1), 128, 0) ELSE Pow256(Bytes(T)))
 ASSUME \A T \in Types : InType(T, [neg |-> FALSE, mag |-> MaxOf(T)]) /\ ~InType(T, [neg |-> FALSE, mag |-> Add(MaxOf(T), <<1>>)])
 ASSUME InType("i64", [neg |-> TRUE, mag |-> Pow63]) /\ ~InType("u64", [neg |-> TRUE, mag |-> <<1>>])
 \* wide boundary facts
